@@ -623,3 +623,9 @@ def capture_final(rep, repo):
     rep.ob('C03.capture', 'gpu: s[3] = (c[line, vector] <= TMIN), s[6] = final', ok)
     if not ok:
         rep.violate('C03.capture', mod, g, f's[3]={st.get(3)}; s[6]={st.get(6)}', 'wave_capture_gpu must store the initial value (first entry <= TMIN) in s[3] and final in s[6]', node=g)
+
+
+def thorough(rep, repo):
+    """Thorough tier: the quick rules plus checker self-validation on the C03 slice of the mutation corpus."""
+    from kvstatic import thorough as thorough_mod
+    thorough_mod.selftest_slice(rep, repo, 'C03')
